@@ -216,7 +216,7 @@ class Ctx:
         t = time.time()
         impl = self.run_lines_robust(harness_exe, [stream], lines, env=env)
         try:
-            rc, model, merr = self.run_lines(DRIVER, [driver_stream or stream], lines, timeout=900)
+            rc, model, merr = self.run_lines(DRIVER, [driver_stream or stream], lines, timeout=900 if self.tier == "quick" else 3600)
         except subprocess.TimeoutExpired:
             rc, model, merr = 1, [], "model driver timed out (a generated case makes the executable model loop)"
         if len(model) != len(lines):
